@@ -119,7 +119,7 @@ func (p *Program) implements(t types.Type, it *types.Interface) bool {
 var denyPkgs = map[string]bool{
 	"runtime": true, "reflect": true, "syscall": true, "os": true, "net": true, "net/http": true,
 	"time": true, "sync": true, "sync/atomic": true, "fmt": true, "log": true, "encoding/json": true,
-	"unsafe": true, "math/rand": true, "crypto/rand": true, "context": true, "net/url": true,
+	"unsafe": true, "math/rand": true, "crypto/rand": true, "context": true,
 	"nhooyr.io/websocket": true, "compress/gzip": true, "bufio": true,
 }
 
@@ -149,7 +149,7 @@ func (p *Program) allowedPath(path string) bool {
 	if strings.HasPrefix(path, "internal/") && path != "internal/bytealg" && path != "internal/stringslite" && path != "internal/byteorder" && path != "internal/itoa" {
 		return false
 	}
-	if strings.HasPrefix(path, "runtime/") || strings.HasPrefix(path, "github.com/quic-go") || strings.HasPrefix(path, "crypto/") || strings.HasPrefix(path, "net/") {
+	if strings.HasPrefix(path, "runtime/") || strings.HasPrefix(path, "github.com/quic-go") || strings.HasPrefix(path, "crypto/") || (strings.HasPrefix(path, "net/") && path != "net/url") {
 		return false
 	}
 	return true
